@@ -190,6 +190,15 @@ func (store *KeyBackuper) Export(exportIDs []keystore.ExportID, mode keystore.Ex
 	var err error
 
 	if len(exportIDs) != 0 {
+		// Private key material read for the export is wiped when it has been encoded
+		// and encrypted, not before: the backup would carry zeros instead of the keys.
+		defer func() {
+			for _, key := range exportedKeys {
+				if isPrivate(key.Name) {
+					utils.ZeroizeBytes(key.Content)
+				}
+			}
+		}()
 		for _, exportID := range exportIDs {
 			switch exportID.KeyKind {
 			case keystore.KeyPoisonPublic:
@@ -217,7 +226,6 @@ func (store *KeyBackuper) Export(exportIDs []keystore.ExportID, mode keystore.Ex
 					return nil, err
 				}
 
-				utils.ZeroizeBytes(keypair.Private.Value)
 				exportedKeys = append(exportedKeys, &keystore.Key{
 					Name:    PoisonKeyFilename,
 					Content: keypair.Private.Value,
@@ -246,7 +254,6 @@ func (store *KeyBackuper) Export(exportIDs []keystore.ExportID, mode keystore.Ex
 					log.WithError(err).Error("Cannot read client storage private key")
 					return nil, err
 				}
-				utils.ZeroizeBytes(key.Value)
 				exportedKeys = append(exportedKeys, &keystore.Key{
 					Name:    GetServerDecryptionKeyFilename(exportID.ContextID),
 					Content: key.Value,
@@ -257,7 +264,6 @@ func (store *KeyBackuper) Export(exportIDs []keystore.ExportID, mode keystore.Ex
 					log.WithError(err).Error("Cannot read client symmetric key")
 					return nil, err
 				}
-				utils.ZeroizeBytes(key)
 				exportedKeys = append(exportedKeys, &keystore.Key{
 					Name:    getClientIDSymmetricKeyName(exportID.ContextID),
 					Content: key,
@@ -268,7 +274,6 @@ func (store *KeyBackuper) Export(exportIDs []keystore.ExportID, mode keystore.Ex
 					log.WithError(err).Error("Cannot read client symmetric key")
 					return nil, err
 				}
-				utils.ZeroizeBytes(key)
 				exportedKeys = append(exportedKeys, &keystore.Key{
 					Name:    getHmacKeyFilename(exportID.ContextID),
 					Content: key,
